@@ -572,6 +572,86 @@ def make_elem(name):
     return getattr(skfem, parts[0])()
 
 
+# ============================================================================ deterministic witnesses for the fallback logic
+
+def _graded_mesh(kind):
+    """small cells on the left, one column of very long cells on the right: a point at the left end of a long cell is far
+    from that cell's centroid and close to many centroids of small cells"""
+    import skfem
+    gx = np.array([0., 1., 2., 3., 4., 5., 6., 70.])
+    g2 = np.array([0., 1., 2.])
+    if kind == 'tri':
+        return skfem.MeshTri.init_tensor(gx, g2)
+    if kind == 'quad':
+        return skfem.MeshQuad.init_tensor(gx, g2)
+    if kind == 'tet':
+        return skfem.MeshTet.init_tensor(gx[2:], g2, g2)
+    if kind == 'hex':
+        return skfem.MeshHex.init_tensor(gx[2:], g2, g2)
+    return skfem.MeshTri.init_tensor(gx[2:], g2) * skfem.MeshLine(g2)
+
+
+def search_witnesses(ctx):
+    """not sampling dependent; runs first in every tier.  For each long cell k of a graded mesh, permuted to be the LAST cell:
+    a point inside k (for quad / hex / prism meshes: inside the LAST simplex of k's split) whose nearest centroids exclude
+    it, so that only the exhaustive pass can find it.  Queried alone, together with an easy point (both must be located in
+    cells containing them), and together with an outside point (must raise)."""
+    stats = {'cells_tested': 0, 'precondition_failed': 0}
+    W = {3: [Fr(5, 8), Fr(1, 4), Fr(1, 8)], 4: [Fr(9, 16), Fr(1, 4), Fr(1, 8), Fr(1, 16)]}
+    for kind in ('tri', 'tet', 'quad', 'hex', 'wedge'):
+        m0 = _graded_mesh(kind)
+        dim = m0.p.shape[0]
+        nt = m0.t.shape[1]
+        ncand = 5 if dim == 2 else 10
+        xmax = m0.p[0].max()
+        long_cells = [c for c in range(nt) if m0.p[0, m0.t[:, c]].max() == xmax]
+        inc = containment(m0)
+        for k in long_cells:
+            perm = [c for c in range(nt) if c != k] + [k]
+            m = type(m0)(m0.p, m0.t[:, perm])
+            last = nt - 1
+            ms = simplicial(m)
+            ks = ms.t.shape[1] - 1                       # the last simplex: last block of the split, last cell
+            if ks % nt != last:
+                ctx.broke('harness', 'c14-witness', 'the last simplex of the split does not belong to the last cell')
+                continue
+            V = sorted([[Fr(ms.p[i, v]) for i in range(dim)] for v in ms.t[:, ks]], key=lambda q: (q[0], q[1:]))
+            ws = W[dim + 1]
+            hard = tuple(sum(ws[j] * V[j][i] for j in range(dim + 1)) for i in range(dim))
+            cand = candidates(ms, [hard], ncand)
+            stats['cells_tested'] += 1
+            if ks in cand or not in_simplex(ms, ks, hard) or min(bary(cellP(ms, ks), hard)) <= 0:
+                stats['precondition_failed'] += 1
+                continue
+            easy_c = 0
+            Ve = [[Fr(m.p[i, v]) for i in range(dim)] for v in m.t[:, easy_c]]
+            easy = tuple(sum(q[i] for q in Ve) / len(Ve) + Fr(1, 64) * (i + 1) for i in range(dim))
+            outside = tuple(Fr(-5) - i for i in range(dim))
+            data = {'mesh_class': type(m).__name__, 'p': m.p.tolist(), 't': m.t.tolist(), 'site': 'finder-witness',
+                    'hard': [str(v) for v in hard], 'easy': [str(v) for v in easy], 'outside': [str(v) for v in outside],
+                    'candidates_of_hard_point': cand, 'last_simplex': ks}
+            cname = type(m).__name__
+            ctx.count(('witness', kind, k), nontrivial=True)
+            for label, pts, expect_raise in (('alone', [hard], False), ('with-easy-point', [hard, easy], False),
+                                             ('easy-first', [easy, hard], False), ('with-outside-point', [easy, hard, outside], True)):
+                r = run_finder(m, pts)
+                d2 = dict(data, batch=label, result=r[1])
+                if expect_raise:
+                    if r[0] != 'raises':
+                        ctx.fail(f'finder:{cname}:batch-with-outside-point-does-not-raise',
+                                 f'a batch containing the outside point {fl(outside)} returns {r[1]} instead of raising', d2)
+                    continue
+                if r[0] != 'ok':
+                    ctx.fail(f'finder:{cname}:point-needing-exhaustive-pass-raises',
+                             f'point {fl(hard)} lies in the last cell {last} (not among the {ncand} nearest centroids) but the finder raises ({label})', d2)
+                elif len(r[1]) != len(pts) or not all(0 <= c < nt and inc(m, c, x) for c, x in zip(r[1], pts)):
+                    ctx.fail(f'finder:{cname}:point-needing-exhaustive-pass-wrong-cell',
+                             f'batch {label}: points {[fl(x) for x in pts]} located as {r[1]}; the point {fl(hard)} lies in the last cell {last} only', d2)
+    if stats['cells_tested'] == 0 or stats['precondition_failed'] == stats['cells_tested']:
+        ctx.broke('harness', 'c14-witness', f'no witness satisfied its precondition: {stats}')
+    ctx.extra['fallback_witnesses'] = stats
+
+
 # ============================================================================ search(): finders
 
 def raise_class(m, x):
@@ -1121,7 +1201,19 @@ def replay(ctx, data):
     import skfem
     inp = data['input']
     site = inp.get('site')
-    if site == 'finder':
+    if site == 'finder-witness':
+        m = getattr(skfem, inp['mesh_class'])(np.array(inp['p']), np.array(inp['t']))
+        names = {'alone': ['hard'], 'with-easy-point': ['hard', 'easy'], 'easy-first': ['easy', 'hard'],
+                 'with-outside-point': ['easy', 'hard', 'outside']}[inp['batch']]
+        pts = [tuple(Fr(v) for v in inp[nm]) for nm in names]
+        r = run_finder(m, pts)
+        inc = containment(m)
+        ctx.log('batch', inp['batch'], 'result', r)
+        bad = (r[0] != 'raises') if inp['batch'] == 'with-outside-point' else \
+            (r[0] != 'ok' or not all(0 <= c < m.t.shape[1] and inc(m, c, x) for c, x in zip(r[1], pts)))
+        if bad:
+            ctx.fail(data['key'], data['what'], inp)
+    elif site == 'finder':
         cls = getattr(skfem, inp['mesh_class'])
         m = cls(np.array(inp['p']), np.array(inp['t']))
         x = tuple(Fr(v) for v in inp['point'])
